@@ -5,11 +5,11 @@
         `data[p : p+|pat|] = pat`, `start ≤ p`, `p + |pat| ≤ stop` and (aligned → 8 ∣ p); everything else
         (find = first, rfind = last, findall = take count, in, startswith, endswith, count, cut, greedy
         non-overlapping selection, split, replace) is a one-line function of it.
-  ALG : the code, function by function: `Bits._validate_slice` (bits.py:1142), `BitStore.find/rfind/
-        findall_msb0/rfindall_msb0` (bitstore.py:132-184; byte fast path and general path),
-        `Bits.find/_find_msb0/findall/_findall_msb0/rfind/_rfind_msb0/__contains__` (bits.py:461,1226-1372),
-        `cut`, `split`, `startswith`, `endswith`, `count` (bits.py:1387-1464,1516-1586),
-        `BitArray.replace/_replace` (bitarray_.py:271-334; `BitStream.replace`, bitstream.py:680, has the same
+  ALG : the code, function by function: `Bits._validate_slice` (bits.py:1152), `BitStore.find/rfind/
+        findall_msb0/rfindall_msb0` (bitstore.py:139-191; byte fast path and general path),
+        `Bits.find/_find_msb0/findall/_findall_msb0/rfind/_rfind_msb0/__contains__` (bits.py:466,1236-1384),
+        `cut`, `split`, `startswith`, `endswith`, `count` (bits.py:1399-1476,1531-1601),
+        `BitArray.replace/_replace` (bitarray_.py:279-342; `BitStream.replace`, bitstream.py:696, has the same
         order of checks).  The bitarray / bytes primitives (`bitarray.search`, `bitarray.find`, `bytes.find`,
         `bitarray.tobytes`, slicing, `bitarray.count`) are executable list programs proved equal to their
         list meaning in Props/C07.lean.
@@ -120,15 +120,6 @@ def countNat : Option Int → Option Nat
   | none => none
   | some c => some c.toNat
 
-/-! ### regions of the known findings (same names in harness/props/C07.py REGIONS) -/
-
-/-- `findall` with an empty pattern: the code has no check (it yields every position / every byte position). -/
-def findall_empty_pattern (pat : Bits) : Bool := pat.isEmpty
-
-/-- `replace(..., count=0)` returns 0 before the pattern and the range are validated. -/
-def replace_count0_unvalidated (len : Nat) (old : Bits) (start stop : Option Int) (count : Option Int) : Bool :=
-  count == some 0 && (old.isEmpty || (specWindow len start stop).isNone)
-
 /-! ## bitarray / bytes primitives as executable list programs -/
 
 /-- Scan a suffix `l` (which starts at absolute position `p`) for `pat`, positions with `q + |pat| ≤ hi`. -/
@@ -162,7 +153,7 @@ def bytesFind (b sub : List Nat) («from» : Nat) : Option Nat := (scan sub b.le
 
 /-! ## ALG: bitstore.py -/
 
-/-- The `while byte_pos < bytes_to_search` loop of `findall_msb0` (bitstore.py:159-164). -/
+/-- The `while byte_pos < bytes_to_search` loop of `findall_msb0` (bitstore.py:166-171). -/
 def fastLoop (b sub : List Nat) (startByte nSearch : Nat) : Nat → Nat → List Nat
   | 0, _ => []
   | fuel + 1, bytePos =>
@@ -172,7 +163,7 @@ def fastLoop (b sub : List Nat) (startByte nSearch : Nat) : Nat → Nat → List
       | some j => (j + startByte) * 8 :: fastLoop b sub startByte nSearch fuel (j + 1)
     else []
 
-/-- Byte fast path of `BitStore.findall_msb0` (bitstore.py:149-165).  `bytes_to_search = end_byte - start_byte`
+/-- Byte fast path of `BitStore.findall_msb0` (bitstore.py:156-172).  `bytes_to_search = end_byte - start_byte`
     may be negative in Python; the loop condition `byte_pos < bytes_to_search` is then false at once, as it is
     with truncated subtraction here. The loop runs at most `bytes_to_search` times (`byte_pos` grows). -/
 def findallFast (data pat : Bits) (s e : Nat) : List Nat :=
@@ -183,29 +174,29 @@ def findallFast (data pat : Bits) (s e : Nat) : List Nat :=
   let nSearch := endByte - startByte
   fastLoop b sub startByte nSearch (nSearch + 1) 0
 
-/-- `BitStore.findall_msb0` (bitstore.py:148-174). -/
+/-- `BitStore.findall_msb0` (bitstore.py:155-181). -/
 def findallMsb0 (data pat : Bits) (s e : Nat) (aligned : Bool) : List Nat :=
   if aligned && pat.length % 8 == 0 then findallFast data pat s e
   else
     let i := baSearch data pat s e
     if !aligned then i else i.filter fun p => p % 8 == 0
 
-/-- `BitStore.rfindall_msb0` (bitstore.py:176-184). -/
+/-- `BitStore.rfindall_msb0` (bitstore.py:183-191). -/
 def rfindallMsb0 (data pat : Bits) (s e : Nat) (aligned : Bool) : List Nat :=
   let i := (baSearch data pat s e).reverse
   if !aligned then i else i.filter fun p => p % 8 == 0
 
-/-- `BitStore.find` (bitstore.py:132-138); `none` is the code's `-1`. -/
+/-- `BitStore.find` (bitstore.py:139-145); `none` is the code's `-1`. -/
 def storeFind (data pat : Bits) (s e : Nat) (aligned : Bool) : Option Nat :=
   if !aligned then baFind data pat s e false else (findallMsb0 data pat s e aligned).head?
 
-/-- `BitStore.rfind` (bitstore.py:140-146). -/
+/-- `BitStore.rfind` (bitstore.py:147-153). -/
 def storeRfind (data pat : Bits) (s e : Nat) (aligned : Bool) : Option Nat :=
   if !aligned then baFind data pat s e true else (rfindallMsb0 data pat s e aligned).head?
 
 /-! ## ALG: bits.py -/
 
-/-- `Bits._validate_slice` (bits.py:1142-1148). -/
+/-- `Bits._validate_slice` (bits.py:1152-1158). -/
 def validateSlice (len : Nat) (start stop : Option Int) : Except Err (Nat × Nat) :=
   let s : Int := match start with
     | none => 0
@@ -221,14 +212,14 @@ def defaultBA (ba : Option Bool) (optBA : Bool) : Bool :=
   | none => optBA
   | some b => b
 
-/-- `Bits.find` → `_find_msb0` (bits.py:1226-1254, 1270-1273); `none` = `()`, `some p` = `(p,)`. -/
+/-- `Bits.find` → `_find_msb0` (bits.py:1236-1264, 1280-1283); `none` = `()`, `some p` = `(p,)`. -/
 def find (data pat : Bits) (start stop : Option Int) (ba : Option Bool) (optBA : Bool) : Except Err (Option Nat) :=
   if pat.length = 0 then .error .value else
   match validateSlice data.length start stop with
   | .error e => .error e
   | .ok (s, e) => .ok (storeFind data pat s e (defaultBA ba optBA))
 
-/-- `Bits.rfind` → `_rfind_msb0` (bits.py:1342-1372): the range is validated before the empty check. -/
+/-- `Bits.rfind` → `_rfind_msb0` (bits.py:1354-1384): the range is validated before the empty check. -/
 def rfind (data pat : Bits) (start stop : Option Int) (ba : Option Bool) (optBA : Bool) : Except Err (Option Nat) :=
   match validateSlice data.length start stop with
   | .error e => .error e
@@ -236,7 +227,7 @@ def rfind (data pat : Bits) (start stop : Option Int) (ba : Option Bool) (optBA 
     if pat.length = 0 then .error .value else
     .ok (storeRfind data pat s e (defaultBA ba optBA))
 
-/-- The counting loop of `_findall_msb0` (bits.py:1300-1308) over the positions the store generator yields. -/
+/-- The counting loop of `_findall_msb0` (bits.py:1312-1320) over the positions the store generator yields. -/
 def findallCount (count : Option Nat) : List Nat → Nat → List Nat
   | [], _ => []
   | i :: rest, c =>
@@ -244,29 +235,29 @@ def findallCount (count : Option Nat) : List Nat → Nat → List Nat
     | none => i :: findallCount count rest (c + 1)
     | some n => if n ≤ c then [] else i :: findallCount count rest (c + 1)
 
-/-- `Bits.findall` → `_findall_msb0` (bits.py:1275-1308).  NOTE: as the code stands there is no check for an
-    empty `bs` (known finding `findall-empty`): the store generator is run on the empty pattern. -/
+/-- `Bits.findall` → `_findall_msb0` (bits.py:1285-1322). -/
 def findall (data pat : Bits) (start stop : Option Int) (count : Option Int) (ba : Option Bool) (optBA : Bool) :
     Except Err (List Nat) :=
   if (match count with | some c => decide (c < 0) | none => false) then .error .value else
+  if pat.length = 0 then .error .value else
   match validateSlice data.length start stop with
   | .error e => .error e
   | .ok (s, e) =>
     .ok (findallCount (count.map Int.toNat) (findallMsb0 data pat s e (defaultBA ba optBA)) 0)
 
-/-- `Bits.__contains__` (bits.py:461-468): `Bits.find(self, bs, bytealigned=False)`, then `bool(found)`. -/
+/-- `Bits.__contains__` (bits.py:466-473): `Bits.find(self, bs, bytealigned=False)`, then `bool(found)`. -/
 def contains (data pat : Bits) (optBA : Bool) : Except Err Bool :=
   match find data pat none none (some false) optBA with
   | .error e => .error e
   | .ok r => .ok r.isSome
 
-/-- `Bits.startswith` (bits.py:1516-1526). -/
+/-- `Bits.startswith` (bits.py:1531-1541). -/
 def startswith (data pre : Bits) (start stop : Option Int) : Except Err Bool :=
   match validateSlice data.length start stop with
   | .error e => .error e
   | .ok (s, e) => .ok (if s + pre.length ≤ e then decide (slice data s (s + pre.length) = pre) else false)
 
-/-- `Bits.endswith` (bits.py:1528-1538). -/
+/-- `Bits.endswith` (bits.py:1543-1553). -/
 def endswith (data suf : Bits) (start stop : Option Int) : Except Err Bool :=
   match validateSlice data.length start stop with
   | .error e => .error e
@@ -277,12 +268,12 @@ def baCountOnes : Bits → Nat
   | [] => 0
   | b :: t => (if b then 1 else 0) + baCountOnes t
 
-/-- `Bits.count` (bits.py:1574-1586). -/
+/-- `Bits.count` (bits.py:1589-1601). -/
 def count (data : Bits) (value : Bool) : Nat :=
   let c := baCountOnes data
   if value then c else data.length - c
 
-/-- The `while count is None or c < count` loop of `cut` (bits.py:1404-1414). -/
+/-- The `while count is None or c < count` loop of `cut` (bits.py:1416-1426). -/
 def cutLoop (data : Bits) (bits e : Nat) (count : Option Nat) : Nat → Nat → Nat → List Bits
   | 0, _, _ => []
   | fuel + 1, start_, c =>
@@ -293,7 +284,7 @@ def cutLoop (data : Bits) (bits e : Nat) (count : Option Nat) : Nat → Nat → 
       else nextchunk :: cutLoop data bits e count fuel (start_ + bits) (c + 1)
     else []
 
-/-- `Bits.cut` (bits.py:1387-1414).  Each full iteration advances `start_` by `bits ≥ 1`, so `len + 1`
+/-- `Bits.cut` (bits.py:1399-1426).  Each full iteration advances `start_` by `bits ≥ 1`, so `len + 1`
     iterations suffice. -/
 def cut (data : Bits) (bits : Int) (start stop : Option Int) (count : Option Int) : Except Err (List Bits) :=
   match validateSlice data.length start stop with
@@ -303,10 +294,10 @@ def cut (data : Bits) (bits : Int) (start stop : Option Int) (count : Option Int
     if bits ≤ 0 then .error .value else
     .ok (cutLoop data bits.toNat e (count.map Int.toNat) (data.length + 1) s 0)
 
-/-- `Bits._find_msb0` (bits.py:1270-1273). -/
+/-- `Bits._find_msb0` (bits.py:1280-1283). -/
 def findMsb0 (data pat : Bits) (s e : Nat) (aligned : Bool) : Option Nat := storeFind data pat s e aligned
 
-/-- The `while count is None or c < count` loop of `split` (bits.py:1453-1462). -/
+/-- The `while count is None or c < count` loop of `split` (bits.py:1465-1474). -/
 def splitLoop (data pat : Bits) (e : Nat) (aligned : Bool) (count : Option Nat) : Nat → Nat → Nat → Nat → List Bits
   | 0, _, _, _ => []
   | fuel + 1, startpos, pos, c =>
@@ -317,7 +308,7 @@ def splitLoop (data pat : Bits) (e : Nat) (aligned : Bool) (count : Option Nat) 
       | some f => slice data startpos f :: splitLoop data pat e aligned count fuel f f (c + 1)
     else []
 
-/-- `Bits.split` (bits.py:1416-1464), observed as `list(s.split(...))`.  Each iteration moves `pos` forward by
+/-- `Bits.split` (bits.py:1428-1476), observed as `list(s.split(...))`.  Each iteration moves `pos` forward by
     at least `|delimiter| ≥ 1`, so `len + 1` iterations suffice. -/
 def split (data pat : Bits) (start stop : Option Int) (count : Option Int) (ba : Option Bool) (optBA : Bool) :
     Except Err (List Bits) :=
@@ -334,7 +325,7 @@ def split (data pat : Bits) (start stop : Option Int) (count : Option Int) (ba :
 
 /-! ## ALG: bitarray_.py -/
 
-/-- The selection loop of `_replace` (bitarray_.py:275-283) over the positions `findall` yields.
+/-- The selection loop of `_replace` (bitarray_.py:283-291) over the positions `findall` yields.
     `spRev` is `starting_points` with the most recent entry first (so `starting_points[-1]` is its head),
     `n` is `len(starting_points)`; the result is `starting_points` in the code's order. -/
 def replaceSelLoop (m count : Nat) : List Nat → Nat → List Nat → List Nat
@@ -346,13 +337,13 @@ def replaceSelLoop (m count : Nat) : List Nat → Nat → List Nat → List Nat
       | last :: _ => if last + m ≤ x then (x :: spRev, n + 1) else (spRev, n)
     if count ≠ 0 ∧ st.2 = count then st.1.reverse else replaceSelLoop m count st.1 st.2 xs
 
-/-- The assembly of `_replace` (bitarray_.py:286-293) for a non-empty `starting_points`. -/
+/-- The assembly of `_replace` (bitarray_.py:294-301) for a non-empty `starting_points`. -/
 def replaceAssemble (data new : Bits) (m : Nat) : List Nat → Bits
   | [] => []
   | [p] => new ++ data.drop (p + m)
   | p :: q :: rest => new ++ slice data (p + m) q ++ replaceAssemble data new m (q :: rest)
 
-/-- `BitArray._replace` (bitarray_.py:271-300): returns the number of replacements and the new content.
+/-- `BitArray._replace` (bitarray_.py:279-308): returns the number of replacements and the new content.
     `start`, `stop` are already validated, so the inner `self.findall` validates them again to the same values. -/
 def replaceCore (data old new : Bits) (s e : Nat) (count : Nat) (aligned : Bool) : Nat × Bits :=
   let sp := replaceSelLoop old.length count [] 0 (findallMsb0 data old s e aligned)
@@ -360,15 +351,14 @@ def replaceCore (data old new : Bits) (s e : Nat) (count : Nat) (aligned : Bool)
   | [] => (0, data)
   | p :: _ => (sp.length, slice data 0 p ++ replaceAssemble data new old.length sp)
 
-/-- `BitArray.replace` (bitarray_.py:302-334; same order in `BitStream.replace`).  NOTE: `count == 0` returns 0
-    before the pattern and the range are looked at (known finding `replace-count0`). -/
+/-- `BitArray.replace` (bitarray_.py:310-342; same order in `BitStream.replace`). -/
 def replace (data old new : Bits) (start stop : Option Int) (count : Option Int) (ba : Option Bool) (optBA : Bool) :
     Except Err (Nat × Bits) :=
-  if count = some 0 then .ok (0, data) else
   if old.length = 0 then .error .value else
   match validateSlice data.length start stop with
   | .error e => .error e
   | .ok (s, e) =>
+    if count = some 0 then .ok (0, data) else
     let c : Nat := match count with
       | none => 0
       | some c => c.toNat
